@@ -19,9 +19,9 @@ RULE = (
     "materializer)} x ensure_full_rank on/off x every distinct ordering of the data rows.  The real "
     "formulaic.model_matrix is called and compared with the reference dummy coding of models/dummy_ref.py "
     "(text: levels sorted; categorical dtype: declared categories in declared order, unused ones included; numeric: "
-    "values unchanged) and every cell is required to be a number.  Non-trivial = the column X is text or "
-    "categorical with >= 2 levels, or numeric with >= 2 distinct values (counted once per distinct "
-    "(dtype, frame, materializer, formula, output, rank flag, row order))."
+    "values unchanged) and every cell is required to be a number.  Non-trivial = the column X holds >= 2 distinct "
+    "values, i.e. >= 2 levels (counted once per distinct (dtype, frame, materializer, formula, output, rank flag, "
+    "row order))."
 )
 ASSUMPTIONS = [
     "small-scope hypothesis: kind inference depends on the column dtype only, level discovery on the set and order "
@@ -355,27 +355,39 @@ def selftest():
         raise AssertionError("pandas no longer infers a string dtype for a list of str")
 
 
+CLASSES = [("text", ("text",)), ("categorical", ("cat",)), ("numeric", ("num", "bool"))]
+
+
 def subchecks(tier, seed):
+    """One sub-check per dtype class (so that the findings of one class cannot crowd the others out of the
+    runner's per-sub-check violation list); the numeric class does not depend on the level alphabet and is therefore
+    not repeated for the second alphabet."""
     selftest()
     thorough = tier != "quick"
     subs = []
+
+    def add(name, thorough_scope, levels, klasses, rows, note=None, only=None, shard_depth=3):
+        cat = catalogue(levels, thorough_scope)
+        names = [k for k in cat if cat[k][1] in klasses and (only is None or k in only)]
+        ctx = make_ctx(thorough_scope, [levels], only=names)[0]
+        b = {"levels": levels, "rows": rows, "dtypes": ctx["dtype_names"], "formulas": FORMULAS}
+        if note:
+            b["note"] = note
+        subs.append(Sub(name, drv_dtypes, ctx, shard_depth=shard_depth, bounds=b))
+
     if not thorough:
-        ctx = make_ctx(False, [LEVELS])[0]
-        subs.append(Sub("dtypes", drv_dtypes, ctx, shard_depth=2,
-                        bounds={"levels": LEVELS, "rows": "3 rows, every order", "dtypes": ctx["dtype_names"],
-                                "formulas": FORMULAS}))
+        for name, klasses in CLASSES:
+            add(name, False, LEVELS, klasses, "3 rows (3 levels / 3 distinct numbers), every order")
         # VERIF_SEED-selected exhaustive slice of the thorough scope: one dtype of the thorough catalogue with the
-        # thorough multisets and the second alphabet
-        tctx = make_ctx(True, [LEVELS2])[0]
-        pick = tctx["dtype_names"][seed % len(tctx["dtype_names"])]
-        sctx = make_ctx(True, [LEVELS2], only=[pick])[0]
-        subs.append(Sub("dtypes-seed-slice", drv_dtypes, sctx, shard_depth=3,
-                        bounds={"levels": LEVELS2, "dtype": pick, "rows": "thorough multisets, every distinct order",
-                                "note": "VERIF_SEED-selected exhaustive slice of the thorough scope"}))
+        # thorough multisets (and the second alphabet)
+        allnames = list(catalogue(LEVELS2, True))
+        pick = allnames[seed % len(allnames)]
+        add("seed-slice", True, LEVELS2, ("text", "cat", "num", "bool"), "thorough multisets, every distinct order",
+            note="VERIF_SEED-selected exhaustive slice of the thorough scope: dtype %s" % pick, only=[pick], shard_depth=4)
     else:
-        for levels, tag in ((LEVELS, "dtypes"), (LEVELS2, "dtypes-alphabet2")):
-            ctx = make_ctx(True, [levels])[0]
-            subs.append(Sub(tag, drv_dtypes, ctx, shard_depth=2,
-                            bounds={"levels": levels, "rows": "multisets of 2-4 rows, every distinct order",
-                                    "dtypes": ctx["dtype_names"], "formulas": FORMULAS}))
+        rows = "multisets of 2-4 rows (1-3 levels / distinct numbers), every distinct order"
+        for name, klasses in CLASSES:
+            add(name, True, LEVELS, klasses, rows)
+        for name, klasses in CLASSES[:2]:
+            add(name + "-alphabet2", True, LEVELS2, klasses, rows)
     return subs
